@@ -15,6 +15,7 @@ def ioToy : NumIO Int where
   showW _ w := 'f' :: natStr w
   castW _ y := some y.toNat
   ofIntW _ i := some i.toNat
+  convW _ _ w := w
   ofInt i := i
   sub a b := a - b
   mul a b := a * b
@@ -60,6 +61,7 @@ def ioQ : NumIO ℚ where
   showW _ _ := []
   castW _ _ := none
   ofIntW _ _ := none
+  convW _ _ w := w
   ofInt i := i
   sub a b := a - b
   mul a b := a * b
